@@ -56,6 +56,7 @@ func Emit(fn string, args []string, o string) {
 	out.Write(b)
 	out.WriteByte('\n')
 }
+
 var violCount = map[string]int{}
 
 // Viol reports a direct-oracle failure; at most 3 inputs per key are printed.
